@@ -274,14 +274,20 @@ def c_from_composer(it, recv, a):
     it.ctx.event("for_each_in_order", "composer.constraints", tuple(sub))
     # the header of the description that is packed: the flag as given, the number of witnesses the composer ALLOCATED (the decoder
     # validates every wire label against it), the public-input rows
-    it.ctx.event("pack.header", "hades_optimization=hades_optimization", "witnesses=len(composer.witnesses)")
+    # ... and the rows: row i of the description carries the wire LABELS of gate i (a, b, c, d in this order) and the index its selector
+    # tuple got in the polynomial table
+    row = VStruct("CompressedConstraint", dict({w_: VOpaque("index", [Sym(f"{g}.{w_}")]) for w_ in ("a", "b", "c", "d")},
+                                               polynomial=VOpaque("index_of", [VOpaque("polynomials"), tup])))
+    rows = VOpaque("collected", [VOpaque("map_each", [Sym("composer.constraints"), row])])
+    it.ctx.event("pack.header", "hades_optimization=hades_optimization", "witnesses=len(composer.witnesses)", "constraints=" + canon(rows))
     return VOpaque("havoc:result")
 
 
 def fc_pack(it, recv, a):
     from vlib.ring import VStruct as _VS
     if isinstance(recv, _VS) and "witnesses" in recv.fields and "hades_optimization" in recv.fields:
-        it.ctx.event("pack.header", "hades_optimization=" + canon(recv.fields["hades_optimization"]), "witnesses=" + canon(recv.fields["witnesses"]))
+        it.ctx.event("pack.header", "hades_optimization=" + canon(recv.fields["hades_optimization"]), "witnesses=" + canon(recv.fields["witnesses"]),
+                     "constraints=" + canon(recv.fields.get("constraints")))
         return UNIT
     return NotImplemented
 
